@@ -20,6 +20,22 @@ SHM = "/dev/shm"
 TOOL_TIMEOUT = 60.0
 
 
+_LIBC = None
+
+
+def die_with_parent():
+    """preexec_fn for every tool and rtsim process: the kernel kills the child when the worker that started it goes
+    away (wall cap, per-run alarm, a killed check) -- a tool that spins on a broken tree must not outlive its run."""
+    global _LIBC
+    try:
+        if _LIBC is None:
+            import ctypes
+            _LIBC = ctypes.CDLL("libc.so.6", use_errno=True)
+        _LIBC.prctl(1, 9, 0, 0, 0)      # PR_SET_PDEATHSIG, SIGKILL
+    except Exception:
+        pass
+
+
 class Ctx:
     def __init__(self, bld, tier, workroot):
         self.build = bld
@@ -74,7 +90,7 @@ class Ctx:
         exe = self.build.tool(name, san=san)
         try:
             p = subprocess.run([exe] + list(args), env=env, cwd=cwd, stdin=subprocess.DEVNULL,
-                               stdout=subprocess.PIPE, stderr=subprocess.PIPE, timeout=timeout)
+                               stdout=subprocess.PIPE, stderr=subprocess.PIPE, timeout=timeout, preexec_fn=die_with_parent)
         except subprocess.TimeoutExpired as e:
             return "timeout", (e.stdout or b""), (e.stderr or b"")
         rc = p.returncode
@@ -141,6 +157,7 @@ def fix_environment():
 
 def _winit(modname, tier, seed, root):
     fix_environment()
+    die_with_parent()        # a worker does not outlive the check that started it
     signal.signal(signal.SIGINT, signal.SIG_IGN)
     _W["mod"] = importlib.import_module(modname)
     _W["tier"] = tier
